@@ -3,7 +3,10 @@
  * still transfers half of the request and moves the stream).  Build with --wrap.
  *   T hp open <hex file bytes>                  => ok
  *   T hp seek <off> <F|->                       => ok | fail
- *   T hp read <n> <F|-> <F|->                   => <hex> | fail        (fault on the implied fseek / on the fread)
+ *   T hp read <n> <F|-> <F|-> <cache> <dirty> <f_end_off>  => <hex> | fail   (fault on the implied fseek / on the fread; the three
+ *                                                  fields of the file record HP_read consults when the file ends inside the request:
+ *                                                  in a quarter of the reads the record says "cache on, end of file dirty, f_end_off
+ *                                                  beyond the file", the state in which HP_read delivers zeros for the missing bytes)
  *   T hp write <hex> <F|-> <F|->                => ok | fail
  *   T hp dump                                   => <hex file bytes>
  * Oracle: after a history, every write that reported success after a successful seek is found at its offset
@@ -43,7 +46,7 @@ static void run_case(int k)
     printf("T hp open "); hk_hex(img, (size_t)n0); printf(" => ok\n");
     memset(shadow, 0, sizeof shadow); memcpy(shadow, img, (size_t)n0); memset(known, 1, sizeof known);
     long flen = n0;
-    int nops = (int)hk_range(3, 25), seek_ok = 0; long seek_off = 0;
+    int nops = (int)hk_range(3, 25), seek_ok = 0, nzero = 0; long seek_off = 0;
     for (int i = 0; i < nops; i++) {
         int op = (int)hk_range(0, 9);
         int fs = hk_chance(12), fx = hk_chance(18);
@@ -62,9 +65,16 @@ static void run_case(int k)
             /* arm: fs fails the implied fseek (next call), fx fails the fread (the call after the implied seek, or the next call) */
             int use_fs = fs && will_seek, use_fx = fx && !use_fs;
             wr_fail_at = use_fs ? wr_calls : (use_fx ? wr_calls + (will_seek ? 1 : 0) : -1);
-            memset(buf, 0, sizeof buf);
+            memset(buf, 0xEE, sizeof buf);
+            /* the record as Hsetlength / a new linked block with DD caching on leave it: space handed out below f_end_off that the file
+               does not have yet (restored after the call: the rest of the case and Hclose see the record the library made) */
+            int sv_cache = fr->cache; uintn sv_dirty = fr->dirty; int32 sv_end = fr->f_end_off;
+            if (hk_chance(25)) { fr->cache = hk_chance(85) ? 1 : 0; if (hk_chance(85)) fr->dirty |= FILE_END_DIRTY; fr->f_end_off = (int32)(flen + hk_range(0, 60)); }
+            int rc_cache = fr->cache; unsigned rc_dirty = (unsigned)fr->dirty; long rc_end = (long)fr->f_end_off;
             int r = HP_read(fr, buf, n);
-            printf("T hp read %d %s %s => ", n, use_fs ? "F" : "-", use_fx ? "F" : "-");
+            if (r != FAIL && fr->last_op == H4_OP_UNKNOWN) nzero++;   /* a read that succeeded by delivering zeros for bytes the file does not have yet */
+            fr->cache = sv_cache; fr->dirty = sv_dirty; fr->f_end_off = sv_end;
+            printf("T hp read %d %s %s %d %u %ld => ", n, use_fs ? "F" : "-", use_fx ? "F" : "-", rc_cache, rc_dirty, rc_end);
             if (r == FAIL) printf("fail\n"); else { hk_hex(buf, (size_t)n); printf("\n"); }
             if (r != FAIL && seek_ok) { for (int j = 0; j < n; j++) if (known[seek_off + j] && buf[j] != shadow[seek_off + j]) { hk_fail("hp-read-wrong-place", "read after seek %ld returned other bytes", seek_off); break; } }
             seek_ok = 0;
@@ -92,6 +102,7 @@ static void run_case(int k)
     { long n = slurp(path, img, sizeof img); printf("T hp dump => "); hk_hex(img, (size_t)n); printf("\n");
       for (long j = 0; j < n && j < flen; j++) if (known[j] && img[j] != shadow[j]) { hk_fail("hp-write-misplaced", "byte %ld of the file is not what the last successful seek+write put there", j); break; } }
     hk_stat("hp_ops", nops);
+    hk_stat("hp_zero_delivery", nzero);
     wr_enabled = 0;
     fr->last_op = H4_OP_UNKNOWN;
     Hclose(fid);
